@@ -535,6 +535,9 @@ SERVER_CORPUS = [
     b'OPTIONS /any HTTP/1.1\r\nHost: h\r\nCookie: a=b; c=d\r\n\r\n',
     b'HEAD /head?x=y HTTP/1.1\r\nHost: h\r\n\r\n',
     b'PATCH /a.b/~c_d-e?k=%20v HTTP/1.1\r\nhost: MixedCase.Example\r\ncontent-length: 2\r\n\r\nok',
+    # obs-text: bytes >= 0x80 in field values (raw UTF-8, Latin-1), also on a continuation line; every cut makes some read begin with one
+    b'GET /obs HTTP/1.1\r\nHost: h\r\nX-Name: caf\xc3\xa9 \xe9t\xe9\r\nCookie: n=\xe2\x82\xac\r\nX-Fold: a\r\n \xfcber\r\n\r\n',
+    b'POST /obs2 HTTP/1.1\r\nHost: h\r\nContent-Disposition: attachment; filename="\xe9t\xe9.txt"\r\nContent-Length: 4\r\n\r\n\xff\x80ok',
 ]
 SERVER_SEQUENCES = [
     [0, 1, 0],
@@ -547,6 +550,7 @@ SERVER_SEQUENCES = [
     [4, 5, 7, 0],
     [16, 0],
     [15, 20],
+    [21, 22, 0],
 ]
 # gzip-coded bodies exercise the parser's decompressor carry-over; the decoded body is not compared with the bytes
 GZ = gzip.compress(b'hello world, hello world, hello world', mtime=0)
@@ -675,6 +679,9 @@ def gen_headers(rng, n):
             val = '%s=%s' % (rword(rng, SEG[:26], 1, 4), rword(rng, SEG[:36], 0, 6))
         else:
             val = rword(rng, VAL, 0, 24).strip()
+            if rng.random() < 0.15:
+                # obs-text (RFC 7230 3.2.6): bytes >= 0x80 are legal in field values (raw UTF-8 / Latin-1; encoded as latin-1 below)
+                val = (val + ' ' + rng.choice(['caf\xe9', '\xc3\xa9t\xc3\xa9', '\xe2\x82\xac', '\xff', '\x80\x81'])).strip()
         sep = rng.choice([': ', ':', ':  ', ':\t'])
         line = name + sep + val
         if name == 'Cookie':
